@@ -57,7 +57,8 @@ structure Pending where
 
 structure State where
   cas : Digest → Option Blob
-  tgt : Bytes → Option (List Digest)
+  /-- visible target results: marshalled content and the digests it references -/
+  tgt : Bytes → Option Blob
   conf : Pid → List Digest
   pend : Pid → List Pending
 
@@ -80,7 +81,7 @@ def upd {α : Type} (f : Pid → α) (p : Pid) (v : α) : Pid → α := fun q =>
 def store (s : State) (pe : Pending) : State :=
   match pe.ns with
   | .cas => { s with cas := fun d => if d = pe.key then some pe.blob else s.cas d }
-  | .target => { s with tgt := fun k => if k = pe.key then some pe.blob.refs else s.tgt k }
+  | .target => { s with tgt := fun k => if k = pe.key then some pe.blob else s.tgt k }
 
 def storeAll (s : State) : List Pending → State
   | [] => s
@@ -130,7 +131,7 @@ def init : State := ⟨fun _ => none, fun _ => none, fun _ => [], fun _ => []⟩
 structure Sound (H : Bytes → Digest) (s : State) : Prop where
   addressed : ∀ d b, s.cas d = some b → H b.content = d
   casClosed : ∀ d b, s.cas d = some b → ∀ r ∈ b.refs, vis s r = true
-  tgtClosed : ∀ k refs, s.tgt k = some refs → ∀ r ∈ refs, vis s r = true
+  tgtClosed : ∀ k b, s.tgt k = some b → ∀ r ∈ b.refs, vis s r = true
   confBacked : ∀ p d, d ∈ s.conf p → vis s d = true
   pendBacked : ∀ p pe, pe ∈ s.pend p → (∀ r ∈ pe.blob.refs, vis s r = true) ∧ (pe.ns = .cas → H pe.blob.content = pe.key)
 
